@@ -406,7 +406,7 @@ func checkBlockManager(p *load.Program, r *kit.Report) {
 		bad := ""
 		pre := kit.Reach(f, []kit.Pt{kit.Entry(f)}, kit.Opts{StopAt: kit.InstrSet(terminals...)})
 		for _, ret := range kit.Returns(f) {
-			if pre.Has(ret) && kit.ReturnErrClass(ret) != kit.ErrNonNil {
+			if pre.Has(ret) && pre.ErrClass(ret) != kit.ErrNonNil {
 				bad = "processRequest can return nil without any terminal signal on request.complete: the requester waits for ever"
 			}
 		}
@@ -418,7 +418,7 @@ func checkBlockManager(p *load.Program, r *kit.Report) {
 				}
 			}
 			for _, ret := range kit.Returns(f) {
-				if after.Has(ret) && kit.ReturnErrClass(ret) == kit.ErrNonNil {
+				if after.Has(ret) && after.ErrClass(ret) == kit.ErrNonNil {
 					bad = "an error is returned after the request was already signalled"
 				}
 			}
